@@ -50,6 +50,8 @@ RULE = (
     'or a server-initiated notification/indication; distinct by (database, MTUs, PDU bytes, operations).'
 )
 ASSUMPTIONS = [
+    'a caller that gives up a send (task.cancel() on indicate_subscriber / indicate_subscribers) is ordinary use of the asyncio API; '
+    'the clause "at most one indication per bearer awaiting confirmation" is judged on the wire and does not go away with the caller',
     'a request is sent only after the previous request window is quiescent (ATT is sequential); commands, '
     'confirmations and other non-requests may be sent back to back',
     'silence = no PDU in either direction during 35 virtual seconds (beyond the 30 s GATT timeout and every '
@@ -758,8 +760,15 @@ def indicate_overlap_case():
     db = {'services': [{'uuid': u16(0xABCD), 'primary': True, 'inc': [], 'chars': [
         _ch(u16(0x1234), 0x3A, 0x03, 'static', 5), _ch(u16(0x1235), 0x22, 0x03, 'static', 3)]}]}
     gaps = st.sampled_from(['now', 'now', 'tick', 'p1', 'p1', 'p6'])
-    one = st.tuples(st.just('indicate'), st.tuples(st.just('sub'), st.integers(0, 1)), st.one_of(st.none(), st.integers(0, 30)),
-                    st.sampled_from([False, False, True]), gaps)
+    plain = st.tuples(st.just('indicate'), st.tuples(st.just('sub'), st.integers(0, 1)), st.one_of(st.none(), st.integers(0, 30)),
+                      st.sampled_from([False, False, True]), gaps)
+    # ... whose caller gives up (task.cancel()) 0 / 1 / 50 ms / 2 s / 10 s later, while the indication is queued, unconfirmed or over
+    given_up = st.tuples(plain, st.sampled_from([0, 1, 50, 2000, 10000])).map(lambda t: t[0] + ({'giveup_ms': t[1]},))
+    # the per-bearer API (indicate_subscriber on the Connection or on the bearer), also with a caller that gives up
+    single = st.tuples(st.just('indicate1'), st.tuples(st.just('sub'), st.integers(0, 1)), st.one_of(st.none(), st.integers(0, 30)),
+                       st.sampled_from([False, False, True]), gaps, st.sampled_from(['conn', 0]))
+    single_given_up = st.tuples(single, st.sampled_from([0, 1, 50, 2000, 10000])).map(lambda t: t[0] + ({'giveup_ms': t[1]},))
+    one = st.one_of(plain, plain, given_up, single, single_given_up, single_given_up)
     sub = [('pdu', {'op': 0x12, 'parts': [('h', ('cccd', k)), ('lit', b'\x02\x00')]}, 'wait', 0) for k in (0, 1)]
     return st.tuples(st.lists(one, min_size=3, max_size=6),
                      st.lists(st.sampled_from([0, 0, 0.2, 5, 5, 29, None]), min_size=2, max_size=5),
@@ -1016,6 +1025,8 @@ def materialize(op, L, limits):
         out = [kind, handle, op[2], bool(op[3]), op[4]]
         if kind.endswith('1'):  # the per-bearer API: the Connection itself or one bearer
             out.append('conn' if op[5] == 'conn' else int(op[5]) % len(limits))
+        if isinstance(op[-1], dict):  # the caller gives up
+            out.append({'giveup_ms': int(op[-1]['giveup_ms'])})
         return out
     if kind == 'settle':
         return ['settle']
@@ -1249,6 +1260,13 @@ async def _drive(loop, case, S):
                     task = loop.create_task(fn(attribute, value, force))
                 task.add_done_callback(lambda t: t.cancelled() or t.exception())
                 tasks.append(task)
+                if isinstance(op[-1], dict) and op[-1].get('giveup_ms') is not None:
+                    # the caller of this send gives up (task.cancel()) after that many virtual ms: the obligations on the
+                    # wire (one indication awaiting its confirmation per bearer) do not go away with the caller
+                    loop.call_later(op[-1]['giveup_ms'] / 1000.0, task.cancel)
+                    S['api'].add('caller_gives_up_indication')
+                    if one:
+                        S['api'].add('caller_gives_up_indication/per_bearer_api')
             if g == 'wait':
                 await close()
             else:
@@ -1652,6 +1670,8 @@ def run(ctx) -> None:
         ('reconnect:by_peer', 20), ('reconnect:by_victim', 15), ('reconnect:twice', 3), ('reconnect:mtu_was_raised', 15),
         ('reconnect:subscribed_before', 15), ('reconnect:request_in_flight', 8), ('reconnect:indication_unconfirmed', 3),
         ('reconnect:server_send_after', 15),
+        # callers that give up an indication
+        ('caller_gives_up_indication', 30), ('caller_gives_up_indication/per_bearer_api', 15),
     ):
         ctx.floor(label, n)
 
